@@ -6,7 +6,7 @@ META = {
     "technique": "Lean 4 theorems over an executable model of kafka.Conn's response side: a size-threading reader monad (read.go/discard.go), parser programs interpreted over it (the readFrom methods, reflective struct layouts and the framing call table are regenerated from /repo by a go/ast translator on every run; the inline closures of conn.go/read.go are transcribed), (*Conn).do / waitResponse / ReadBatchWith+Batch as a connection state machine; byte conservation proved once for all parser programs by mutual induction; model<->code differential correspondence through a compiled Lean oracle driving the real Conn over net.Pipe against a scripted broker",
     "level_claimed": {
         "category": "proof",
-        "text": "Kernel-checked over an executable model of kafka.Conn's response side whose parser programs are ALL regenerated from /repo or checked step-for-step against the regenerated ones (readFrom methods, reflective struct layouts, read.go fetch headers, conn.go element callbacks, ApiVersions; closures_regenerated + stepsEq_sound) and equal the Kafka layouts (gen_matches_spec). For every operation going through (*Conn).do (list-offsets included since fix C11-D34) and for ApiVersions (since fix C11-D33), every negotiated version, EVERY byte content of a fully delivered response frame (so any int16 in any error field) and any following bytes: either the result is ok/a kafka error, exactly the frame was consumed, the Conn stays open and its state equals that of a fresh Conn at the next frame (aligned_or_closed, next_op_as_fresh), or the result is a non-kafka error and the Conn is closed, after which every operation fails (closed_stays_failed); any NUMBER of operations in a row give, one by one, what each gives alone on a fresh connection holding only its own frame, up to the first failing one, after which all fail (sequence_aligned; mixed_sequence_aligned for operations AND fetches in any order, with fetch_depends_only_on_frame — locality of ReadBatchWith+Batch for every conserving, local message-set reader, both hypotheses discharged for the reader-stack model: stackBody_conserves, stackBody_local); the result of an exchange depends on its own frame's bytes only and whatever follows is left untouched (result_depends_only_on_frame: locality + conservation, two mutual inductions over all parser programs); a response under a foreign correlation id closes the Conn (desync_closes, fix C11-D30), so does one whose size prefix is below 4, negative ones included (bad_size_closes, bad_size_closes_fetch). Fetch: same statement for every byte-conserving message-set reader (fetch_aligned_or_closed), the conservation hypothesis discharged for the reader-stack accounting of message_reader.go (stack_run_adv, stack_discard_empties, regenerated facts). List-offsets additionally: every frame of the one-partition shape is consumed exactly (listOffsets_aligned_wf), unfixed shape refuted (listOffsets_two_partitions_counterexample); ApiVersions additionally: every well-formed frame is consumed exactly (apiVersions_aligned_wf), unfixed shape refuted (apiVersions_trailing_counterexample). The read lock is released on every exit path of an exchange (regenerated facts; lock_released_on_every_path, leaked_lock_blocks). D2 shape refuted (d2_regression_counterexample). Tied by running the real Conn and the model on the same frames: op x version x error codes in every error field (also in non-last array entries) x following op, partial reads of plain/compressed batches, Conn.Read/ReadMessage, framing-error frames, three-operation chains after a foreign correlation id.",
+        "text": "Kernel-checked over an executable model of kafka.Conn's response side whose parser programs are ALL regenerated from /repo or checked step-for-step against the regenerated ones (readFrom methods, reflective struct layouts, read.go fetch headers, conn.go element callbacks, ApiVersions; closures_regenerated + stepsEq_sound) and equal the Kafka layouts (gen_matches_spec). For every operation going through (*Conn).do (list-offsets included since fix C11-D34) and for ApiVersions (since fix C11-D33), every negotiated version, EVERY byte content of a fully delivered response frame (so any int16 in any error field) and any following bytes: either the result is ok/a kafka error, exactly the frame was consumed, the Conn stays open and its state equals that of a fresh Conn at the next frame (aligned_or_closed, next_op_as_fresh), or the result is a non-kafka error and the Conn is closed, after which every operation fails (closed_stays_failed); any NUMBER of operations in a row give, one by one, what each gives alone on a fresh connection holding only its own frame, up to the first failing one, after which all fail (sequence_aligned; mixed_sequence_aligned for operations AND fetches in any order, with fetch_depends_only_on_frame — locality of ReadBatchWith+Batch for every conserving, local message-set reader, both hypotheses discharged for the reader-stack model: stackBody_conserves, stackBody_local); the Conn's version cache is part of the state: a broker error on the ApiVersions exchange of a negotiating operation is what the caller gets, nothing is cached and the Conn is a fresh one at the next frame (negotiation_error_leaves_fresh_conn, next_negotiating_op_as_fresh over Model/ConnVersions.lean, regenerated fact loadVersionsStrict); the result of an exchange depends on its own frame's bytes only and whatever follows is left untouched (result_depends_only_on_frame: locality + conservation, two mutual inductions over all parser programs); a response under a foreign correlation id closes the Conn (desync_closes, fix C11-D30), so does one whose size prefix is below 4, negative ones included (bad_size_closes, bad_size_closes_fetch). Fetch: same statement for every byte-conserving message-set reader (fetch_aligned_or_closed), the conservation hypothesis discharged for the reader-stack accounting of message_reader.go (stack_run_adv, stack_discard_empties, regenerated facts). List-offsets additionally: every frame of the one-partition shape is consumed exactly (listOffsets_aligned_wf), unfixed shape refuted (listOffsets_two_partitions_counterexample); ApiVersions additionally: every well-formed frame is consumed exactly (apiVersions_aligned_wf), unfixed shape refuted (apiVersions_trailing_counterexample). The read lock is released on every exit path of an exchange (regenerated facts; lock_released_on_every_path, leaked_lock_blocks). D2 shape refuted (d2_regression_counterexample). Tied by running the real Conn and the model on the same frames: op x version x error codes in every error field (also in non-last array entries) x following op, partial reads of plain/compressed batches, Conn.Read/ReadMessage, framing-error frames, three-operation chains after a foreign correlation id.",
         "design_ref": "DESIGN.md §7 C11",
     },
     "level_note": "Trusted: Lean kernel; propext/Quot.sound; the go/ast translator go/extract/connlegacy.go (restricted Go subset, anything else = untranslated = broken obligation); the hand transcription of the control flow of (*Conn).do / waitResponse / ReadBatchWith / Batch.close into Model/ConnOps.lean (connDo, connFetch, fetchRead; its branch conditions — drain, expectZeroSize, close rules, lock releases, buffer drop, discard result — are regenerated facts, its shape is checked by correspondence on generated frames, pairs, runs and pipelined calls); every parser program is regenerated (closures_regenerated); bufio.Reader/net.Conn modelled (Peek/Discard/ReadFull on a byte list followed by EOF); message_reader.go abstracted to 'any byte-conserving (and, for the sequence theorems, local) reader', both discharged for the reader-stack accounting model (its record-level internals belong to C02/C05); deadlines never expire in the model; an honest frame size prefix or one below 4 (bad_size_closes); response layouts in the driver are transcribed from the Kafka protocol documentation (no broker in the sandbox).",
